@@ -1154,6 +1154,18 @@ func runIDX(c *Ctx, r *Result, rule string, fns []*ssa.Function, reach *Reach) i
 						why = "dominating tests establish 0 <= index < Len"
 					}
 				}
+				// a slice made here with n elements: the difference-constraint prover of BND
+				// shows 0 <= index and index+1 <= n (e.g. index over s[k:], n = len(s)-k)
+				if why == "" {
+					if mk, ok := recv.(*ssa.Call); ok && staticName(mk) == "reflect.MakeSlice" && len(mk.Call.Args) == 3 {
+						bndCtx = c
+						p := newBndProver(c, call, 0)
+						i := bnorm(idx)
+						if p.prove(zeroLin, i) && p.prove(blin{i.n, i.c + 1}, bnorm(mk.Call.Args[1])) {
+							why = "index into a slice made with n elements, with 0 <= index < n by a difference-constraint proof"
+						}
+					}
+				}
 			}
 			pend = append(pend, pending{o: o, f: f, key: excSiteKey{exceptionKey(f), "Index", ord}, why: why})
 		}
